@@ -4,7 +4,7 @@
 From Coq Require Import List NArith ZArith Bool Arith Lia.
 From BBS Require Import Common.Sx Store.Model Store.Wf Store.WfTids Store.Wiring Store.WiringProofs.
 From BBS Require Import Run.RStore Run.R01 Run.R05 Run.R01W.
-From BBS Require Import Store.P01Defs Store.P01Final Store.P05Mon Store.P05Main Store.P05Touch.
+From BBS Require Import Store.P01Defs Store.P01Final Store.P05Mon Store.P05Main Store.P05Touch Store.P08Monitor.
 Import ListNotations.
 
 Lemma mon01_world_on_model w es : mon01_world w es (run_world w es) = dedupZ (mon01_model w es).
@@ -79,4 +79,14 @@ Proof.
   destruct (H w eq_refl) as (S & A & WO & WT).
   destruct (sx_eqb (run01W inp) rejected); [split; reflexivity|].
   rewrite (mon01W_silent inp w W S A WO WT), (mon05W_silent inp w W S A WO WT). split; reflexivity.
+Qed.
+
+(** C08's monitor on the wired store: silent on the model for EVERY accepted
+    configuration, all contents and ALL schedules, corruption events included
+    (C08's theorem needs no well-formedness hypothesis) *)
+Theorem mon08W_silent inp w : wired_world inp = Some w -> mon08W w (dec_ops inp) (run01W inp) = [].
+Proof.
+  intros W. rewrite (run01W_accepted inp w W).
+  change (mon08W w (dec_ops inp) (run_world w (dec_ops inp))) with (mon08_model w (dec_ops inp)).
+  apply store_model_satisfies_C08.
 Qed.
